@@ -1,4 +1,6 @@
 //! C15: greedy_matching / maximum_matching on SymGraph (adjacency symbolic), ford_fulkerson on symbolic capacities.
+#[path = "c15/flowu8.rs"]
+mod flowu8;
 use petgraph::algo::{ford_fulkerson, greedy_matching, maximum_matching, Matching};
 use petgraph::graph::{Graph, NodeIndex};
 use petgraph::visit::{GraphBase, NodeCount, NodeIndexable};
@@ -21,6 +23,8 @@ struct Match {
     /// if non-zero: only `free` seeded pairs may be edges, all others are asserted absent
     sparse_seed: u64,
     free: usize,
+    /// pairs that are always among the free ones (a skeleton the seeded pairs are added to)
+    skeleton: Vec<(usize, usize)>,
 }
 impl Match {
     fn free_pairs(&self) -> Option<Vec<(usize, usize)>> {
@@ -35,8 +39,16 @@ impl Match {
             }
         }
         Rng::new(self.sparse_seed).shuffle(&mut all);
-        all.truncate(self.free);
-        Some(all)
+        let mut out: Vec<(usize, usize)> = self.skeleton.iter().map(|&(a, b)| (a.min(b), a.max(b))).collect();
+        for p in all {
+            if out.len() >= self.free {
+                break;
+            }
+            if !out.contains(&p) {
+                out.push(p);
+            }
+        }
+        Some(out)
     }
 }
 
@@ -364,7 +376,7 @@ fn make(tier: &str, seed: u64) -> Vec<Box<dyn Harness>> {
     let mut v: Vec<Box<dyn Harness>> = vec![];
     let mut addm = |ids: Vec<usize>, tail: usize, loops: bool, split_bits: usize| {
         for val in 0..(1usize << split_bits) {
-            v.push(Box::new(Match { ids: ids.clone(), tail, loops, split_bits, split_val: val, sparse_seed: 0, free: 0 }) as Box<dyn Harness>);
+            v.push(Box::new(Match { ids: ids.clone(), tail, loops, split_bits, split_val: val, sparse_seed: 0, free: 0, skeleton: vec![] }) as Box<dyn Harness>);
         }
     };
     addm(vec![0, 1, 2], 0, true, 0);
@@ -379,7 +391,16 @@ fn make(tier: &str, seed: u64) -> Vec<Box<dyn Harness>> {
     // sparse larger graphs (blossoms with stems need >= 8 nodes): 8 and 9 nodes, 13 seeded free pairs each
     for k in 0..(if thorough { 96 } else { 16 }) {
         let n = 8 + (k % 2) as usize;
-        v.push(Box::new(Match { ids: (0..n).collect(), tail: 0, loops: false, split_bits: 0, split_val: 0, sparse_seed: seed * 1000 + k + 1, free: 13 }));
+        v.push(Box::new(Match { ids: (0..n).collect(), tail: 0, loops: false, split_bits: 0, split_val: 0, sparse_seed: seed * 1000 + k + 1, free: 13, skeleton: vec![] }));
+    }
+    // nested blossoms (a blossom contracted inside a later one) need a particular shape; two skeletons on which a seeded
+    // change was first seen (in a 96-member run of the random family, under the double's ascending neighbour order) are kept as fixed members, each completed to 13 free pairs by seeded extra pairs
+    let skeletons: Vec<(usize, Vec<(usize, usize)>)> = vec![
+        (9, vec![(0, 4), (0, 7), (0, 8), (1, 4), (1, 5), (2, 6), (2, 7), (4, 5), (5, 6)]),
+        (8, vec![(0, 4), (0, 6), (0, 7), (1, 3), (1, 5), (2, 3), (2, 4), (3, 4), (5, 6)]),
+    ];
+    for (k, (n, sk)) in skeletons.into_iter().enumerate() {
+        v.push(Box::new(Match { ids: (0..n).collect(), tail: 0, loops: false, split_bits: 0, split_val: 0, sparse_seed: seed * 77 + k as u64 + 1, free: 13, skeleton: sk }));
     }
     let mut topos: Vec<Topo> = vec![];
     // sparse larger flow networks: 6-7 nodes, 8-10 arcs, seeded (augmenting paths that must be partly undone need length)
@@ -441,6 +462,14 @@ fn make(tier: &str, seed: u64) -> Vec<Box<dyn Harness>> {
                 v.push(Box::new(Flow { topo: t.clone(), s, t: d, real: rng.below(4) == 0 }));
             }
         }
+    }
+    // machine-integer capacities near the limits of u8
+    for (id, n, edges, s, t) in [
+        ("diamond", 4usize, vec![(0usize, 1usize), (0, 2), (1, 3), (2, 3), (1, 2)], 0usize, 3usize),
+        ("parallel+loop+back", 2, vec![(0, 1), (0, 1), (0, 0), (1, 0)], 0, 1),
+        ("chain+parallel", 3, vec![(0, 1), (0, 1), (1, 2), (1, 2), (0, 2)], 0, 2),
+    ] {
+        v.push(Box::new(flowu8::FlowU8 { topo: Topo { fam: "U8".into(), id: id.into(), n, directed: true, edges }, s, t }));
     }
     v
 }
